@@ -1,5 +1,5 @@
 (* C15 — I/O failures are reported faithfully and read fragmentation is irrelevant. *)
-From LZ4V Require Import Base GenBlock BlockFormat FrameImpl Writer Reader FrameTheoremsSpec WriterProofs ReaderProofs Lifecycle ReaderSpec2 ReaderProofs2.
+From LZ4V Require Import Base GenBlock BlockFormat FrameImpl Writer Reader FrameTheoremsSpec WriterProofs ReaderProofs Lifecycle ReaderSpec2 ReaderProofs2 FragSpec FragProofs.
 (* the underlying writer failing from its k-th call on, for EVERY k and every session: what reached
    the sink is a prefix of the fault-free output and the failure is returned by some call, by Close
    at the latest *)
@@ -10,3 +10,10 @@ Print Assumptions C15_sink_fault.
    never a clean end — unless the stream had already been read completely *)
 Theorem C15_source_fault : source_fault2_stmt.  Proof. exact source_fault2. Qed.
 Print Assumptions C15_source_fault.
+(* read fragmentation: the Reader obtains every byte through io.ReadFull (Reader.read_full in the
+   model); io.ReadFull over a source that fragments its reads by ANY finite plan (single bytes,
+   zero-length reads, data returned together with io.EOF) yields the bytes, the error class and the
+   remaining stream of the unfragmented read — so every Reader theorem, stated over unfragmented
+   sources, holds for every fragmentation *)
+Theorem C15_fragmentation_irrelevant : frag_irrelevant_stmt.  Proof. exact frag_irrelevant. Qed.
+Print Assumptions C15_fragmentation_irrelevant.
